@@ -15,9 +15,11 @@ Go facts mirrored here (client.go unless noted):
 * `updatePresence` (presence timer): lock `presenceMu`; under `c.mu` return if `status == closed`;
   OnAlive callback (if registered); unlock.
 * subscriptions are committed under `c.mu` only while `status != closed`.
-* node.go `Shutdown` / hub.go `shutdown`: set the flag, snapshot the hub's clients, `close` each
-  of them and wait.  `connectCmd` does not look at the flag (handlers: only the WebSocket handler
-  does, before `NewClient`).
+* node.go `Shutdown` / hub.go `shutdown`: under the shard's write lock set `shutdownStarted` and
+  snapshot the shard's clients; `close` each of them and wait.  `connShard.add` (reached from
+  `connectCmd` through `Node.addClient`, under `c.mu`) refuses once `shutdownStarted` is set:
+  `connectCmd` then returns `DisconnectShutdown`, the client is not registered, `triggerConnect`
+  is not reached and `HandleCommand` spawns `close(DisconnectShutdown)`.
 
 Every label is one lock region or one callback boundary.  There is no bound on the number of
 racing close / unsubscribe / tick / subscribe calls: a label sequence may contain any number of them.
@@ -35,6 +37,8 @@ deriving Repr, DecidableEq, Inhabited
 /-- connect thread -/
 inductive CPC where
   | idle | ready | inCb | doneRan | doneSkipped
+  /-- `addClient` refused (node shut down): connectCmd failed, `triggerConnect` is never reached -/
+  | refused
 deriving Repr, DecidableEq, Inhabited
 
 /-- the `close` call that flipped the status -/
@@ -76,6 +80,8 @@ inductive Label where
   /-- `connectCmd` succeeded (`addClient` done); connect-time server-side subscriptions are
   `subscribe` steps taken before `triggerAcquire` -/
   | connectCmdOk
+  /-- `addClient` refused because the hub shard already took its shutdown snapshot -/
+  | connectCmdRefused
   | triggerAcquire | triggerEnd
   | subscribe
   | closeTry
@@ -93,7 +99,10 @@ def presenceMuFree (s : St) : Bool :=
 
 def step (s : St) : Label → Option St
   | .connectCmdOk =>
-    if s.cpc = .idle && s.status != .closed then some { s with cpc := .ready, inHub := true } else none
+    -- `connShard.add` succeeds only while the shard has not taken its shutdown snapshot
+    if s.cpc = .idle && s.status != .closed && s.shut = .idle then some { s with cpc := .ready, inHub := true } else none
+  | .connectCmdRefused =>
+    if s.cpc = .idle && s.status != .closed && s.shut != .idle then some { s with cpc := .refused } else none
   | .triggerAcquire =>
     if s.cpc = .ready && connectMuFree s then
       if s.status = .connecting then
@@ -103,7 +112,7 @@ def step (s : St) : Label → Option St
   | .triggerEnd =>
     if s.cpc = .inCb then some { s with cpc := .doneRan, status := .connected, log := s.log ++ [.connectEnd] } else none
   | .subscribe =>
-    if s.status != .closed && s.cpc != .idle then
+    if s.status != .closed && s.cpc != .idle && s.cpc != .refused then
       some { s with subs := s.subs ++ [s.nextSub], nextSub := s.nextSub + 1 }
     else none
   | .closeTry =>
